@@ -70,7 +70,16 @@ pub fn check(c: &ParCase, st: &mut Stats) -> Result<(), Fail> {
         }
     }
     let workers = 1 + (c.workers % 16) as usize;
-    let cfg = PoolCfg { workers, queue: frames.len() + 16, batch: 1 + (c.batch % 64) as usize, timeout_ms: 1 + (c.timeout_ms % 20) as u64, dispatchers: 1, perturb: Some(c.perturb), max_sleep_us: 200 };
+    // half of the cases run with a tight capacity: just enough flow-table entries for every connection of the trace even if
+    // all of them reach one worker (HTTP: one entry per connection; TCP / TLS: at most one per direction and role) - `max_connections` is
+    // documented as a per-worker capacity, so nothing may be evicted and the sequential analyzer (capacity 1000) is the reference
+    let tight = c.batch & 0x40 != 0;
+    let n_conn = c.trace.conns.len().max(1);
+    let max_conn = if !tight { 1000 } else if kind == PoolKind::Http { n_conn } else { 4 * n_conn };
+    if tight {
+        st.class("tight-capacity");
+    }
+    let cfg = PoolCfg { workers, queue: frames.len() + 16, batch: 1 + (c.batch % 64) as usize, timeout_ms: 1 + (c.timeout_ms % 20) as u64, dispatchers: 1, perturb: Some(c.perturb), max_sleep_us: 200, max_conn };
     let reference = sequential(kind, &pk);
     let run = run_pool(kind, &frames, &cfg, None, Some(clock)).map_err(|e| fail!("pool:new", "{e}"))?;
     if let Some(p) = &run.worker_panic {
